@@ -67,15 +67,22 @@ class C01(framework.PropertyCheck):
             ids = sorted({h[3] for h in vf['header'] if h[0] == 'var'})[:6] or ['!']
             aux = {'header': [['scope', 'module', 'other']] + [['var', 'wire', 3, i, f'o{k}', None] for k, i in enumerate(ids)] + [['upscope']],
                    'dump': [['time', 0]] + [['vector', '101', i] for i in ids] + [['time', 7]] + [['vector', '010', i] for i in ids]}
-            steps = [('loadvcd', 'zz', gen_trace.render(aux, random.Random(case['history']))), steps[0], ('unload', 'zz'), steps[1]]
+            if case['history'] % 2:
+                steps = [('loadvcd', 'zz', gen_trace.render(aux, random.Random(case['history']))), steps[0], ('unload', 'zz'), steps[1]]
+            else:
+                # the other file was loaded under the very same id, read, and unloaded
+                steps = [('loadvcd', 't0', gen_trace.render(aux, random.Random(case['history']))), ('eval', 'eorg', '(list other.o0 MAX-INDEX)'),
+                         ('unload', 't0'), steps[0], steps[1]]
         names = den['signals']
         # every signal is read directly and, from the index before, through a relative read that lands on this index
         q = '(list INDEX TS ' + ' '.join(f'(get {qs(n)})' for n in names) + ')'
         qrel = '(list ' + ' '.join(f'(reval (get {qs(n)}) 1)' for n in names[:6]) + ')'
+        qback = '(list ' + ' '.join(f'(reval (get {qs(n)}) (- INDEX))' for n in names[:4]) + ' (reval TS -1))'
         steps.append(('eval', 'eorg', '(list ' + ' '.join(f'(signal-width {qs(n)})' for n in names) + ')'))
         for _i in range(len(den['timestamps'])):
             steps.append(('eval', 'eorg', q))
             steps.append(('eval', 'eorg', qrel))
+            steps.append(('eval', 'eorg', qback))
             steps.append(('eval', 'eorg', '(step)'))
         return steps
 
@@ -86,7 +93,7 @@ class C01(framework.PropertyCheck):
         if case.get('history') is not None:
             if len(iobs) < 3 or iobs[0] != ('ok',) or iobs[2] != ('ok',):
                 return {'what': 'loading / unloading the other file failed', 'obs': iobs[:3]}
-            iobs = iobs[1:2] + iobs[3:]
+            iobs = (iobs[1:2] + iobs[3:]) if case['history'] % 2 else iobs[3:]
         if not iobs or iobs[0] != ('ok',):
             return {'what': 'well-formed file rejected', 'obs': iobs[:1]}
         want0 = ('L', True, (('L', False, tuple(('S', s) for s in names)), ('L', False, tuple(('S', s) for s in den['scopes'])),
@@ -113,6 +120,12 @@ class C01(framework.PropertyCheck):
             if k >= len(iobs) or iobs[k][0] != 'ok' or iobs[k][1] != wantrel:
                 return {'what': 'a relative read (offset 1) does not report the value the file gives for the next index', 'index': i,
                         'got': iobs[k] if k < len(iobs) else None, 'want': wantrel}
+            k += 1
+            # ... and back to the first index / the index before
+            wantback = ('L', True, tuple(_v(den['values'][s][0]) for s in names[:4]) + ((('I', den['timestamps'][i - 1]),) if i > 0 else (('B', False),)))
+            if k >= len(iobs) or iobs[k][0] != 'ok' or iobs[k][1] != wantback:
+                return {'what': 'a relative read back to index 0 / to the index before does not report what the file gives there', 'index': i,
+                        'got': iobs[k] if k < len(iobs) else None, 'want': wantback}
             k += 1
             want_step = ('B', i + 1 < n)
             if k >= len(iobs) or iobs[k][0] != 'ok' or iobs[k][1] != want_step:
